@@ -211,6 +211,9 @@ impl Chunk {
         if crate::verif_hooks::skip_optimize() {
             return;
         }
+        #[cfg(feature = "verif_hooks")]
+        let verif_pre = crate::verif_hooks::optimize_recording()
+            .then(|| crate::verif_hooks::chunk_wire(self));
         let mut old_instructions = std::mem::take(&mut self.instructions);
         let mut optimized = Vec::with_capacity(old_instructions.len());
         // Map from old instruction index to new instruction index
@@ -333,6 +336,10 @@ impl Chunk {
         }
 
         self.instructions = optimized;
+        #[cfg(feature = "verif_hooks")]
+        if let Some(pre) = verif_pre {
+            crate::verif_hooks::optimize_record(pre, crate::verif_hooks::chunk_wire(self));
+        }
     }
 }
 
